@@ -107,8 +107,10 @@ def rejection_sampling(ctx, world, ev):
             name = (v.name + "." + d.attr) if isinstance(d, ast.Attribute) and isinstance(v, ExtV) else (v.name if isinstance(v, ExtV) else None)
             return name == "itertools.count"
         return False
-    ctx.ob("R0", "loop shape", len(loops) == 1 and unbounded(loops[0]) and not any(isinstance(n, ast.Break) for n in ast.walk(loops[0])),
-           "one unbounded loop (`while True:` / `for _ in itertools.count()`) left only by return" if len(loops) == 1 else
+    # (how the loop is left - return, or break followed by a return - does not matter here: R1 requires the
+    # acceptance condition on every returning path, so an exit for any other reason is reported there)
+    ctx.ob("R0", "loop shape", len(loops) == 1 and unbounded(loops[0]),
+           "one unbounded loop (`while True:` / `for _ in itertools.count()`)" if len(loops) == 1 else
            "unbiased_randrange has %d loops" % len(loops), site)
     if len(loops) != 1:
         return
